@@ -402,6 +402,31 @@ theorem convertOne_factorForm (g : MG Name) (v w : Var) (hloop : ¬ g.DiEdge v.n
   rw [hn] at hself
   exact hloop (by simpa [hn] using (hex v.name).1 hself)
 
+/-- **why ctf-factor form is harmless (composition + exclusion restriction, Eq. 12-13).**  Let `W_{pa_W}` be the ctf-factor
+form of `W_s`.  In every compatible functional SCM, at every noise point, `W` in the world that fixes every parent of
+`W` to the value that parent takes in the world `s` has the value of `W_s`.  (So replacing each member of `An(Y_*)` by its
+ctf-factor form and binding the subscripts to the values of `d_*` does not change the event.) -/
+theorem convert_same_value (g : MG Name) (v c : Var) (h : convertOne g v = .ok c)
+    (hself : v.name ∉ subNames v) (hloop : ¬ g.DiEdge v.name v.name)
+    (M : Fscm.Model) (hM : Fscm.Compatible M g) (ν : Fscm.BaseValues) (u : Fscm.NoisePoint) :
+    Fscm.solve M u ((subNames c).map (fun p => (p, Fscm.solve M u (Fscm.worldOf ν v.ivs) p))) v.name =
+      Fscm.solve M u (Fscm.worldOf ν v.ivs) v.name := by
+  obtain ⟨hn, _, _, hex, _⟩ := convertOne_spec g v c h
+  have hnode : v.name ∈ g.nodes := by
+    unfold convertOne at h
+    by_contra hv
+    simp only [predecessors, hv, ↓reduceIte, bind, Except.bind] at h
+    cases h
+  apply parents_fix_value M u _ v.name (subNames c) hM.nodup hM.topo
+  · exact (hM.perm.mem_iff).2 hnode
+  · exact forced_worldOf_none ν v.ivs v.name hself
+  · intro p hp
+    rw [hex p, hn]
+    exact hM.pa_sub v.name p hp
+  · intro hmem
+    rw [hex v.name, hn] at hmem
+    exact hloop hmem
+
 /-- the accumulated ancestral set `D_* = An(Y_*)` -/
 theorem ancFold_mem (g : MG Name) (q : Event) (acc anc : List Var) (h : q.foldlM (ancStep g) acc = .ok anc)
     (w : Var) : w ∈ anc ↔ w ∈ acc ∨ ∃ p ∈ q, ∃ A, ctfAncestors g p.1 = .ok A ∧ w ∈ A := by
